@@ -116,7 +116,7 @@ func genC06(seed uint64, tier string) C06Cfg {
 		}
 	}
 	s.Strategy = pickStr(r, netsim.Strategies)
-	s.Serial = r.Bool(0.7)
+	s.Serial = r.Bool(0.85)
 	s.Op = pickStr(r, []string{"keygen", "sign", "both"})
 	s.Signers = participants
 	if r.Bool(0.3) {
